@@ -46,6 +46,14 @@ CLAIMED = {
          "excluded before the quoting branch. Necessary conditions for every argument value; decoding by a real server is not decided.",
     technique="effect ownership + AST template matching of the formatter/literal builder + CFG edge-fact guards + finite-domain path enumeration",
     ref="4/C08"),
+ "C15": dict(
+    text="Thin: only request/reply alternation is decided. K1 the sender performs its writes and then exactly one reply read on every normal path, "
+         "the assembler is otherwise called only by the private greeting/capability reader (connect, TLS upgrade), the readers only by the "
+         "assembler/error parser; K2 each public operation sends at most one command per path (finite-domain enumeration); K3 nobody else touches "
+         "socket or buffer (M1, M2, W1); K4 a line is removed from the buffer where it is taken for interpretation. Agreement of the reported "
+         "state with a reference server over histories is NOT decided.",
+    technique="CFG dominance / cycle queries on the sender, intra-class call-graph ownership, finite-domain path enumeration",
+    ref="4/C15"),
 }
 NA = {}
 
